@@ -141,6 +141,34 @@ Definition create_cred_rec (uid : N) : grec := mkG uid level_auth 0 tmp_token_li
 Definition tmp_token (c : tcfg) (now : Z) (rec : grec) : option (list N * Z) :=
   gen_secret mac (tc_key c) (tc_serial c) (tc_lifetime c) now rec.
 
+(* ---- histories of logins ---- *)
+(* every login of a history presents either an independently obtained secret or the token handed
+   back by an EARLIER login of the same history (by position); session, environment and clock of
+   every login are arbitrary *)
+Inductive src := Indep (sec : secret) | Earlier (i : nat).
+Record lreq := mkRq { rq_src : src; rq_env : login_env; rq_sess : sess; rq_clk : clock }.
+
+Definition no_out : sess * login_out := (mkSess 0 0, mkLO LRefused4xx None).
+Definition out_tok (o : sess * login_out) : option (list N) :=
+  match lo_token (snd o) with Some (t, _) => Some t | None => None end.
+
+Definition presented (done : list (sess * login_out)) (r : lreq) : secret :=
+  match rq_src r with
+  | Indep s => s
+  | Earlier i => match out_tok (nth i done no_out) with Some t => SecToken t | None => SecToken [] end
+  end.
+
+Definition hstep (c : tcfg) (done : list (sess * login_out)) (r : lreq) : sess * login_out :=
+  login c (rq_env r) (rq_sess r) (rq_clk r) (presented done r).
+
+Fixpoint hist (c : tcfg) (done : list (sess * login_out)) (reqs : list lreq) : list (sess * login_out) :=
+  match reqs with
+  | [] => done
+  | r :: rest => hist c (done ++ [hstep c done r]) rest
+  end.
+
+Definition history (c : tcfg) (reqs : list lreq) : list (sess * login_out) := hist c [] reqs.
+
 End Relogin.
 
 (* ---------------- what the theorems and the monitors read ---------------- *)
